@@ -76,6 +76,20 @@ def _axioms():
         A.append(z3.ForAll([b], z3.Implies(z3.And(isb(b), slen(b) >= 1, smt.sat(b, 0) < (1 << t)),
                                            BitLen(smt.s_val(b)) <= 8 * (slen(b) - 1) + t),
                            patterns=[smt.s_val(b)]))
+    # big-endian encodings of different lengths (all true of floor/mod encodings, for every x >= 0):
+    #   leading zero octets do not change the value
+    A.append(z3.ForAll([n, b], z3.Implies(n >= 0, smt.s_val(smt.s_concat(smt.s_rep(z3.IntVal(0), n), b)) == smt.s_val(b)),
+                       patterns=[smt.s_val(smt.s_concat(smt.s_rep(z3.IntVal(0), n), b))]))
+    #   the last n2 octets of the n-octet encoding are the n2-octet encoding
+    lo, hi = z3.Ints('mc_lo mc_hi')
+    A.append(z3.ForAll([x, n, m, lo, hi],
+                       z3.Implies(z3.And(x >= 0, 0 <= m, m <= n, lo == n - m, hi == n),
+                                  smt.s_slice(smt.s_be(x, n), lo, hi) == smt.s_be(x, m)),
+                       patterns=[z3.MultiPattern(smt.s_slice(smt.s_be(x, n), lo, hi), smt.s_be(x, m))]))
+    #   the first octet of an n-octet encoding is zero exactly when the value fits in n-1 octets
+    A.append(z3.ForAll([x, n], z3.Implies(z3.And(n >= 1, 0 <= x, x < smt.pow256(n)),
+                                          (smt.sat(smt.s_be(x, n), 0) == 0) == (x < smt.pow256(n - 1))),
+                       patterns=[smt.sat(smt.s_be(x, n), 0)]))
     return A
 
 
